@@ -29,6 +29,24 @@ def env_base():
     return e
 
 
+def alt_repo():
+    """VERIF_REPO=<dir>: build against a scratch copy/worktree of seq-db instead of /repo
+    (used for sensitivity trials; registered commands never set it)."""
+    r = os.environ.get("VERIF_REPO", "")
+    if not r or os.path.abspath(r) == "/repo":
+        return None, ""
+    r = os.path.abspath(r)
+    tag = hashlib.sha256(r.encode()).hexdigest()[:8]
+    os.makedirs(os.path.join(ROOT, ".build"), exist_ok=True)
+    mod = os.path.join(ROOT, ".build", "alt-%s.mod" % tag)
+    with open(os.path.join(ROOT, "go.mod")) as f:
+        txt = f.read().replace("=> /repo", "=> " + r)
+    with open(mod, "w") as f:
+        f.write(txt)
+    shutil.copy(os.path.join(ROOT, "go.sum"), mod[:-4] + ".sum")
+    return mod, "." + tag
+
+
 def log(*a):
     print(*a, file=sys.stderr, flush=True)
 
@@ -42,8 +60,11 @@ def load_plan(prop):
 def build(prop, plan, race=False):
     os.makedirs(os.path.join(ROOT, ".build"), exist_ok=True)
     pkg = "./checks/" + prop.lower()
-    out = os.path.join(ROOT, ".build", prop.lower() + (".race" if race else "") + ".test")
+    mod, tag = alt_repo()
+    out = os.path.join(ROOT, ".build", prop.lower() + tag + (".race" if race else "") + ".test")
     cmd = ["go", "test", "-c", "-tags", "verif", "-o", out]
+    if mod:
+        cmd.append("-modfile=" + mod)
     if race:
         cmd.append("-race")
     cmd.append(pkg)
@@ -52,8 +73,8 @@ def build(prop, plan, race=False):
         log("BUILD FAILED (inconclusive, not a violation):\n" + r.stdout + r.stderr)
         sys.exit(2)
     for need in plan.get("needs", []):
-        o = os.path.join(ROOT, ".build", need)
-        r = subprocess.run(["go", "build", "-tags", "verif", "-o", o, "./cmd/" + need], cwd=ROOT, env=env_base(),
+        o = os.path.join(ROOT, ".build", need + tag)
+        r = subprocess.run(["go", "build", "-tags", "verif", "-o", o] + (["-modfile=" + mod] if mod else []) + ["./cmd/" + need], cwd=ROOT, env=env_base(),
                            capture_output=True, text=True)
         if r.returncode != 0:
             log("BUILD FAILED (inconclusive):\n" + r.stdout + r.stderr)
@@ -128,7 +149,8 @@ class Run:
     def __init__(self, prop, tier, seed):
         self.prop, self.tier, self.seed = prop, tier, seed
         self.plan = load_plan(prop)
-        self.rundir = os.path.join(ROOT, ".run", prop, "%s-%d" % (tier, seed))
+        self.alt_mod, self.alt_tag = alt_repo()
+        self.rundir = os.path.join(ROOT, ".run", prop, "%s-%d%s" % (tier, seed, self.alt_tag))
         shutil.rmtree(self.rundir, ignore_errors=True)
         os.makedirs(self.rundir, exist_ok=True)
         self.shards = []       # merged shard dicts
@@ -142,7 +164,7 @@ class Run:
     def env(self, outdir, extra=None):
         e = env_base()
         e.update(VERIF_OUT=outdir, VERIF_PROP=self.prop, VERIF_TIER=self.tier, VERIF_SEED=str(self.seed),
-                 VERIF_ROOT=ROOT, VERIF_BUILD=os.path.join(ROOT, ".build"))
+                 VERIF_ROOT=ROOT, VERIF_BUILD=os.path.join(ROOT, ".build"), VERIF_BIN_TAG=self.alt_tag)
         if extra:
             e.update(extra)
         return e
@@ -257,7 +279,7 @@ class Run:
             before = set(os.listdir(corpus)) if os.path.isdir(corpus) else set()
             outdir = os.path.join(self.rundir, "fuzz-" + fz["target"])
             cmd = ["go", "test", "-tags", "verif", "-run", "^$", "-fuzz", "^" + fz["target"] + "$",
-                   "-fuzztime", fz.get("fuzztime", "60s"), "-parallel", str(fz.get("parallel", 8)), "."]
+                   "-fuzztime", fz.get("fuzztime", "60s"), "-parallel", str(fz.get("parallel", 8))] + (["-modfile=" + self.alt_mod] if self.alt_mod else []) + ["."]
             p = Proc("fuzz", cmd, self.env(outdir), outdir, cwd=pkgdir)
             rc = p.wait(time.time() + fz.get("budget_s", 900))
             out = p.output()
@@ -306,7 +328,7 @@ class Run:
                 hits[match["sig"] if "sig" in match else match["sig_prefix"]] = match
                 continue
             viol.append(f)
-        fdir = os.path.join(ROOT, "failures", self.prop)
+        fdir = os.path.join(ROOT, "failures" + self.alt_tag, self.prop)
         lines = []
         for f in viol:
             os.makedirs(fdir, exist_ok=True)
@@ -321,7 +343,7 @@ class Run:
             print("KNOWN-FINDING: property=%s %s" % (self.prop, k.get("what", k.get("sig"))), flush=True)
         for l in lines:
             print(l, flush=True)
-        if write_evidence:
+        if write_evidence and not self.alt_tag:
             self.write_evidence(len(viol), sorted(hits.keys()))
         if viol:
             return 1
